@@ -77,7 +77,9 @@ def oracle_steps(ctx, o):
                 ctx.violation("S5", f"1-D range of {n} points does not end at the second endpoint: {f64_of_hex(fwd[-1])!r} vs {f64_of_hex(e)!r}", sig("steps_last"), inp)
             step = (E - S) / (n - 1)
             for i in range(n):
-                if not close(vals[i], S + step * i, 4 * ULP, scale):
+                # 2 ulp = 4 u of the range scale: the bound PROVED for the float model (C14_steps_value_float_partial); the
+                # implementation meeting it on every sample validates that model (no fused or reassociated operations)
+                if not close(vals[i], S + step * i, 2 * ULP, scale):
                     ctx.violation("S5", f"1-D range is not evenly spaced: point {i} of {n} is {f64_of_hex(fwd[i])!r}, expected {float(S + step * i)!r}",
                                   sig("steps_spacing"), dict(inp, index=i, got=fwd[i]))
                     break
@@ -622,7 +624,7 @@ def run(ctx):
                        "transpose: every shape 1..12 x 1..12, plus lengths 0..13 x num_cols 0..4 (ragged / zero columns, model correspondence only); spaces: random wavelength / frequency (equal and unequal spans) / sum-diff spaces with counts 0..300; "
                        "range evaluators: two SPDC setups x three representations x flat lists; every range function of the generated call table (incl. normalized and idler variants) against point-by-point evaluation, bit-exact on a 1-thread pool, on an asymmetric type-II setup with non-square grids whose axes differ in centre, span and count.  distinct = distinct input bits; empty grids count as trivial")
     ctx.cov["clauses"] = {
-        "1-D: n values, first, last, even spacing": "proved (reals, generated Steps::value) + measured 4 ulp",
+        "1-D: n values, first, last, even spacing": "proved (reals, generated Steps::value); float error proved <= 4u of the range scale (Flocq; binary64 under a no-underflow guard) and checked on every sample",
         "1-D/2-D from either end, any interleaving": "proved (any carrier, generated next/next_back)",
         "2-D: nx*ny points, first axis fastest": "proved (any carrier: exact)",
         "index maps mutually inverse": "proved",
